@@ -658,6 +658,104 @@ def _in_map_type(n):
     return '<' in tags[:i] and '>' in tags[i + 1:]
 
 
+def rule_v(rep, g, prog):
+    """R15.v - the parser can return every document: each variant of the descriptor enums (Ty, ConstValue, Item, Attribute)
+    is built somewhere in the parser, and no two different keywords are read as the same variant of Ty (a document printed
+    with one of them would come back as the other)"""
+    rule = 'R15.v'
+    crate = 'pilota_thrift_parser'
+    built = {}
+
+    def fn_consts(o, out):
+        if isinstance(o, dict):
+            c = o.get('c')
+            if isinstance(c, dict) and 'fn' in c:
+                out.append(c['fn'].get('def', ''))
+            for v in o.values():
+                fn_consts(v, out)
+        elif isinstance(o, list):
+            for v in o:
+                fn_consts(v, out)
+    in_default = {}
+    uses_default = set()
+    for b in prog.bodies.values():
+        if b.crate != crate:
+            continue
+        is_parser = b.key.startswith('parser::')
+        is_default = (b.impl_trait or '').endswith('Default') or ' as std::default::Default>' in b.key
+        if not (is_parser or is_default):
+            continue
+        for bb in b.bbs:
+            if bb['cleanup']:
+                continue
+            for st in bb['st']:
+                r = st.get('r', {})
+                if r.get('k') == 'agg' and r['kind'].startswith('Adt:'):
+                    path = mirlib.canon(r['kind'], b.crate)[4:]
+                    (built if is_parser else in_default).setdefault(path, set()).add(b.key)
+        if is_parser:
+            out = []
+            fn_consts(b.raw['bbs'], out)
+            for d in out:
+                built.setdefault(mirlib.canon(d, b.crate), set()).add(b.key)
+            for cs in b.calls():
+                if cs.name in ('default', 'unwrap_or_default') :
+                    uses_default.add(cs.callee + ' ' + ' '.join(cs.gargs or []) + ' ' + ' '.join(cs.argtys or []))
+    n = 0
+    for e, vs in sorted(prog.enums.items()):
+        if not e.startswith('descriptor::'):
+            continue
+        short_e = e.split('::')[-1]
+        for v, _ in vs:
+            n += 1
+            key = '%s|%s::%s is produced' % (rule, short_e, v)
+            path = e + '::' + v
+            hits = [k for k in built if k == path or k.endswith('::' + short_e + '::' + v)]
+            via_default = [k for k in in_default if (k == path or k.endswith('::' + short_e + '::' + v))] and any(short_e in u for u in uses_default)
+            if hits:
+                rep.ok(rule, key, 'built in %s' % sorted(built[hits[0]])[0])
+            elif via_default:
+                rep.ok(rule, key, 'the Default of %s, which the parser falls back to' % short_e)
+            else:
+                rep.bad(rule, key, '', 'no parser builds %s::%s any more: a document containing it is printed in its own spelling but can never be parsed back as written' % (short_e, v))
+    if n < 30:
+        rep.anchor_missing(rule, 'descriptor enum variants (found %d, expected >= 30)' % n)
+    # keywords of Ty::parse: one variant per keyword
+    per = {}
+    for t in g.trees.get('Ty') or []:
+        for x in g.walk(t):
+            mp = getattr(x, 'mapper', None)
+            if x.kind != 'map' or not mp:
+                continue
+            head = x.kids[0]
+            while head.kind in ('seq', 'map') and head.kids:
+                head = head.kids[0]
+            words = [k.text for k in ([head] if head.kind == 'tag' else [k for k in head.kids if k.kind == 'tag'] if head.kind == 'alt' else []) if re.fullmatch(r'\w+', k.text or '')]
+            if not words:
+                continue
+            f = mp[1]
+            variants = set()
+            if f[0] == 'agg' and f[1].startswith('Closure:'):
+                cb = prog.bodies.get(crate + '::' + f[1][len('Closure:'):])
+                for bb in (cb.bbs if cb else []):
+                    for st in bb['st']:
+                        r = st.get('r', {})
+                        if r.get('k') == 'agg' and '::Ty::' in r['kind']:
+                            variants.add(r['kind'].split('::')[-1])
+            elif f[0] == 'fnref' and '::Ty::' in f[1]:
+                variants.add(f[1].split('::')[-1])
+            for v in variants:
+                per.setdefault(v, set()).update(words)
+    if len(per) < 10:
+        rep.anchor_missing(rule, 'keyword alternatives of Ty::parse (found %d, expected >= 10)' % len(per))
+    for v, words in sorted(per.items()):
+        key = '%s|Ty::%s keyword' % (rule, v)
+        if len(words) == 1:
+            rep.ok(rule, key, 'only %r is read as Ty::%s' % (sorted(words)[0], v), g.bodies['Ty'].loc())
+        else:
+            rep.bad(rule, key, g.bodies['Ty'].loc(), 'the keywords %s are all read as Ty::%s: a document written with one of them comes back as a different document' % (sorted(words), v))
+
+
 def rule_s(rep, g):
     """R15.s - the IDL leaves list separators free (comma, semicolon or none): every use of list_separator in the
     grammar is optional. A separator that is the mandatory element of a sequence or the `sep` of separated_list0/1
@@ -717,4 +815,5 @@ def run(ctx):
     rule_q(rep, g)
     rule_n(rep, g)
     rule_g(rep, g)
+    rule_v(rep, g, prog)
     return rep
